@@ -111,7 +111,7 @@ PROPS = {
         "note": "trusted: Lean kernel; the byte-level model of V2Session.buildAndSend / V2Sessionless.buildAndSendCommand (hand-written; tied by a byte-exact correspondence run: every transmitted datagram, the result and the final counter, against the real SendCommand after a real handshake, crypto/rand replaced by an entropy stream); HMAC/AES assumed lawful (abstract Ops); backoff.Retry + context modelled as 'the script runs out'; the reference BMC in the harness (sim.go) is an independent Go transcription of the spec used for the model-free verdicts Two consecutive identical commands cannot be told apart by NetFn/command; the property does not ask for that.",
         "technique": 'Lean 4 proof (inversion of the loop refinement) + differential correspondence with replies to other commands at every script position',
         "ref": '§5 C11',
-        "proofs": ['Bmc.Proofs.C11'],
+        "proofs": ['Bmc.Proofs.C11', "Bmc.Proofs.C11.Match"],
         "scenarios": ['send', 'slsend', 'api', 'udp'],
         "rule": 'send: exhaustive reply scripts over the 21-letter alphabet {final, error code, busy C0, timeout C3, reply to another command (any completion code, near-miss command numbers, other group body / OEM enterprise), authenticated-flagged forgery without any trailer, authentic response cut at the payload end, AuthCode cut short or extended, unauthenticated forgery with foreign/own session ID, authentic but foreign session, flipped AuthCode, wrong key, flipped ciphertext, bad confidentiality pad, authentic unencrypted, garbage, non-message packet, runt message, 7-byte response, lost} to depth 3 (thorough: depth 3 exhaustively + a quarter of depth 4) on suite 3 and one level less on four more suites, random operation (incl. group/OEM NetFns), LUN and request body of 0..39 bytes per script, every request length 0..63, counters at 0/1/2^31-1/2^32-3, unserialisable requests. Non-trivial = script with a non-final outcome before its end; distinct = distinct op line. slsend: exhaustive scripts over 11 letters to depth 3 (thorough 4).'
           " api: every high-level call x {3 suites in session, session-less}: type-directed arguments (0, max, walking bits, out-of-width, random) x reply scripts {conforming body in every optional-tail form, non-zero code with / without body, temporary code then final, reply to another command first, lost, empty / truncated at every length / extended / random body} + all ordered pairs of calls on ONE connection with the second reply shorter than the first; class P = conforming scripts; model-independent verdict: result = fresh decode by the real decoder of the first acceptable final response (error unless code 00h), every transmitted datagram opens under the reference BMC / parser to the specification's command with the caller's arguments.",
